@@ -8,7 +8,7 @@
 EXTENDS Archive, TLC, Json
 
 CONSTANTS MaxFaults,      \* <= 2 in generation
-          Tracks,         \* TRUE: property-conforming reader ; FALSE: archive.go as it is today
+          Tracks,         \* TRUE: reader that requires every member to be seen (archive.go since the fix) ; FALSE: before
           Empties         \* {FALSE} or BOOLEAN : is the state payload empty
 
 VARIABLES a, hist
